@@ -19,10 +19,19 @@ import (
 func obProps(o *Oblig) []string {
 	switch o.Family {
 	case "SAFE", "TERM":
+		if strings.HasSuffix(o.Fn, ").Copy") && (strings.Contains(o.Fn, "schema.") || strings.Contains(o.Fn, "lang.")) {
+			// a Copy that panics does not yield a copy
+			return append([]string{"C01", "C17"}, o.tags...)
+		}
 		return append([]string{"C01"}, o.tags...)
 	case "FRAME":
 		// no write to pre-existing memory: nothing is carried from one query to the next (C03), nothing
 		// the caller supplied changes (C04), concurrent queries only read shared state (C05)
+		if strings.Contains(o.Fn, "schemahelper.") {
+			// dependent-body selection is a function of the block and the schema only if selecting does not
+			// rewrite the schema it selects from (C16: same keys, same schema, whatever was asked before)
+			return []string{"C03", "C04", "C05", "C16"}
+		}
 		return []string{"C03", "C04", "C05"}
 	case "COPY":
 		return []string{"C17"}
@@ -55,6 +64,9 @@ type Baseline struct {
 	Claimed  []string `json:"claimed"`  // obligations that discharge on the pinned tree
 	Unproved []string `json:"unproved"` // obligations that do not (limits of the contracts, or known findings)
 	Functions []string `json:"functions"`
+	BindErrors []string `json:"bind_errors,omitempty"` // contract clauses that do not bind on the pinned tree (none expected)
+	LoopShape  map[string]int `json:"loop_shape,omitempty"` // functions whose contract has loop clauses -> number of loops
+	AllFunctions []string `json:"all_functions,omitempty"` // every function of the hcl-lang packages on the pinned tree
 }
 
 type Finding struct {
@@ -127,7 +139,7 @@ func checkCmd(args []string) int {
 	spec := loadSpecs(w, filepath.Join(root, "trusted"))
 	opt := solveOpts{quickMs: 6000, retryMs: 10000, portfolio: true}
 	if *tier == "thorough" {
-		opt = solveOpts{quickMs: 20000, retryMs: 60000, portfolio: true}
+		opt = solveOpts{quickMs: 20000, retryMs: 60000, portfolio: true, crossCheck: true}
 	}
 	if *writeBase {
 		// the claimed set is recorded under a fifth of the quick time limits: only obligations that discharge
@@ -135,9 +147,21 @@ func checkCmd(args []string) int {
 		opt = solveOpts{quickMs: 1200, retryMs: 2000, portfolio: true}
 	}
 	fns := relevantFuncs(w, spec, *prop)
+	anchorFns := anchorFunctions(w, root, *prop)
+	{
+		have := map[*ssa.Function]bool{}
+		for _, f := range fns {
+			have[f] = true
+		}
+		for _, f := range w.funcs {
+			if anchorFns[shortName(f)] && !have[f] {
+				fns = append(fns, f)
+			}
+		}
+	}
 	res := verifyAll(w, spec, fns, opt, 16, nil)
 	extra := extraObligations(w, spec, *prop, opt)
-	run := &checkRun{prop: *prop, tier: *tier, seed: seed, root: root, w: w, spec: spec, res: res, extra: extra, t0: t0, noReplay: *noReplay}
+	run := &checkRun{prop: *prop, tier: *tier, seed: seed, root: root, w: w, spec: spec, res: res, extra: extra, t0: t0, noReplay: *noReplay, anchorFns: anchorFns}
 	if *writeBase {
 		return run.writeBaseline()
 	}
@@ -153,6 +177,7 @@ type checkRun struct {
 	extra []*extraResult
 	t0    time.Time
 	noReplay bool
+	anchorFns map[string]bool
 	canary   []canaryResult
 	harness  []harnessResult
 }
@@ -173,7 +198,15 @@ func (r *checkRun) collect() (obs []*Oblig, encOf map[*Oblig]*Enc, fnSeen map[st
 			continue
 		}
 		for _, o := range fr.enc.obs {
-			if o.Name == "" || !hasProp(o, r.prop) {
+			if o.Name == "" {
+				continue
+			}
+			// a query that panics gives no result, and one that writes into memory it does not own (a slice
+			// appended to in place, a shared schema) corrupts what it or a later query returns: the SAFE and
+			// FRAME obligations of the functions defined in the files a property is anchored in are part of
+			// that property's check
+			anchored := (o.Family == "SAFE" || o.Family == "FRAME" || (o.Family == "PRE" && len(o.tags) == 0)) && r.anchorFns[o.Fn]
+			if !hasProp(o, r.prop) && !anchored {
 				continue
 			}
 			obs = append(obs, o)
@@ -218,6 +251,12 @@ func (r *checkRun) writeBaseline() int {
 	for f := range fnSeen {
 		b.Functions = append(b.Functions, f)
 	}
+	b.BindErrors = r.bindErrors()
+	b.LoopShape = r.loopShape()
+	for _, f := range r.w.funcs {
+		b.AllFunctions = append(b.AllFunctions, shortName(f))
+	}
+	sort.Strings(b.AllFunctions)
 	sort.Strings(b.Claimed)
 	sort.Strings(b.Unproved)
 	sort.Strings(b.Functions)
@@ -263,6 +302,7 @@ type violation struct {
 	model  string
 	replay string
 	confirmed bool
+	spurious  bool
 	test   *replayTest
 }
 
@@ -298,15 +338,93 @@ func (r *checkRun) decide(noEvidence bool, evidenceOut string) int {
 	for _, o := range obs {
 		cur[o.Name] = o
 	}
+	// a claimed obligation that comes back undecided (a time-out, typically on a loaded machine) is put to the
+	// solvers once more, alone and with a generous limit, before anything is concluded from it
+	{
+		byEnc := map[*Enc][]*Oblig{}
+		for _, n := range base.Claimed {
+			if o, ok := cur[n]; ok && (o.Verdict == "unknown" || o.Verdict == "timeout" || o.Verdict == "") && encOf[o] != nil {
+				byEnc[encOf[o]] = append(byEnc[encOf[o]], o)
+			}
+		}
+		for enc, os := range byEnc {
+			for _, cfg := range solvers {
+				var again []*Oblig
+				for _, o := range os {
+					if o.Verdict != "unsat" && o.Verdict != "sat" {
+						again = append(again, o)
+					}
+				}
+				if len(again) == 0 {
+					break
+				}
+				enc.runBatchC(cfg, again, enc.flagsOff, 45000, 1)
+			}
+		}
+	}
 	var viol []violation
 	var undecided []string
 	discharged, nclaimedPresent := 0, 0
 	byBackend := map[string]int{}
 	solverMs := 0
+	// 0. groups (function, obligation kind) whose set of obligation names differs from the baseline: the
+	// function was edited there. Names carry an ordinal for repeated source text ("x.f#3"), so inside an
+	// edited group a surviving name may denote a different site; such groups are compared by count only.
+	edited := map[string]bool{}
+	ambiguous := map[string]bool{}
+	{
+		baseNames := map[string]bool{}
+		for _, n := range base.Claimed {
+			baseNames[n] = true
+			if _, ok := cur[n]; !ok {
+				edited[fnOfName(n)+"|"+famKind(n)] = true
+			}
+		}
+		for _, n := range base.Unproved {
+			baseNames[n] = true
+			if _, ok := cur[n]; !ok {
+				edited[fnOfName(n)+"|"+famKind(n)] = true
+			}
+		}
+		if haveBase {
+			for _, o := range obs {
+				if !baseNames[o.Name] {
+					edited[o.Fn+"|"+famKind(o.Name)] = true
+				}
+			}
+		}
+		// a name is ambiguous when its source text occurs more than once in the function (it carries an
+		// ordinal that an edit can shift); unique names keep their identity even in an edited group
+		note := func(n string) {
+			if i := strings.LastIndex(n, "#"); i > 0 && n[i+1:] != "1" && !strings.Contains(n[i+1:], "@") {
+				ambiguous[n[:i]] = true
+			} else if strings.Contains(n[i+1:], "@") {
+				ambiguous[n[:i]] = true
+			}
+		}
+		for n := range baseNames {
+			note(n)
+		}
+		for _, o := range obs {
+			note(o.Name)
+		}
+	}
+	isAmbiguous := func(n string) bool {
+		if i := strings.LastIndex(n, "#"); i > 0 {
+			return ambiguous[n[:i]]
+		}
+		return false
+	}
+	editedName := func(n string) bool { return edited[fnOfName(n)+"|"+famKind(n)] && isAmbiguous(n) }
 	// 1. claimed obligations
+	poisoned := map[string]bool{}        // functions whose assumed invariants do not hold any more
 	missingByFn := map[string][]string{} // fn+famkind -> claimed names that disappeared
 	for _, n := range base.Claimed {
 		o, ok := cur[n]
+		if ok && editedName(n) {
+			missingByFn[fnOfName(n)+"|"+famKind(n)] = append(missingByFn[fnOfName(n)+"|"+famKind(n)], n)
+			continue
+		}
 		if !ok {
 			fn := fnOfName(n)
 			if !fnSeen[fn] && baseFns[fn] {
@@ -323,6 +441,24 @@ func (r *checkRun) decide(noEvidence bool, evidenceOut string) int {
 			byBackend[o.Solver]++
 			continue
 		}
+		if o.Verdict == "error" {
+			// the solver rejected the script: a defect of the generator, never a statement about the code
+			undecided = append(undecided, "tool error on a claimed obligation (nothing decided): "+o.Name+": "+firstLines(o.Output, 2))
+			continue
+		}
+		if o.Verdict == "vacuous" {
+			// its program point is unreachable under the assumptions: an assumed invariant is false for the
+			// edited code (see the LOOP obligation of the same function); nothing is decided here
+			undecided = append(undecided, "claimed obligation is now vacuous (its program point is unreachable in the edited code or under the assumed invariants): "+o.Name)
+			continue
+		}
+		if o.Family == "LOOP" && !hasTag(o, "claim") {
+			// an auxiliary invariant (a proof artefact, not a statement of the property) does not hold for the
+			// edited loop: the proof of this function is broken, nothing is decided for it
+			undecided = append(undecided, "auxiliary loop invariant no longer holds (proof broken, nothing decided for this function): "+o.Name+" ("+o.Verdict+")")
+			poisoned[o.Fn] = true
+			continue
+		}
 		viol = append(viol, violation{ob: o, reason: "claimed obligation no longer discharges (" + o.Verdict + ")"})
 	}
 	// 2. obligations that are new with respect to the baseline. Obligation names contain source text, so
@@ -334,7 +470,7 @@ func (r *checkRun) decide(noEvidence bool, evidenceOut string) int {
 	newFail := 0
 	missingUnprovedByFn := map[string]int{}
 	for _, n := range base.Unproved {
-		if _, ok := cur[n]; !ok {
+		if _, ok := cur[n]; !ok || editedName(n) {
 			missingUnprovedByFn[fnOfName(n)+"|"+famKind(n)]++
 		}
 	}
@@ -342,10 +478,10 @@ func (r *checkRun) decide(noEvidence bool, evidenceOut string) int {
 	newFailByFn := map[string][]*Oblig{}
 	var keys []string
 	for _, o := range obs {
-		if claimed[o.Name] || unprovedBase[o.Name] {
+		key := o.Fn + "|" + famKind(o.Name)
+		if (claimed[o.Name] || unprovedBase[o.Name]) && !editedName(o.Name) {
 			continue
 		}
-		key := o.Fn + "|" + famKind(o.Name)
 		if o.Verdict == "unsat" || o.Verdict == "dropped" {
 			if haveBase {
 				discharged++ // new and proved: counted, fine
@@ -397,6 +533,97 @@ func (r *checkRun) decide(noEvidence bool, evidenceOut string) int {
 			undecided = append(undecided, "new unproved obligation: "+o.Name+" ("+o.Verdict+")")
 		}
 	}
+	// 2b. a function whose contract no longer binds to its code (a renamed variable, a restructured loop, a
+	// call site that moved): its invariants and assertions are partly missing, so a failed obligation there
+	// is a broken proof, not a refutation. Nothing is decided for that function.
+	baseBind := map[string]bool{}
+	for _, be := range base.BindErrors {
+		baseBind[be] = true
+	}
+	unboundFn := map[string]bool{}
+	for fn := range poisoned {
+		unboundFn[fn] = true
+	}
+	// whatever the property: a declared auxiliary invariant of the function that is not discharged, or an
+	// obligation of the function that became vacuous, breaks every proof in that function
+	for _, fr := range r.res {
+		if fr.enc == nil || !haveBase {
+			continue
+		}
+		for _, o := range fr.enc.obs {
+			if o.Family == "LOOP" && o.houdini == 0 && !hasTag(o, "claim") && o.Verdict != "unsat" && o.Verdict != "dropped" && o.Verdict != "vacuous" {
+				if !unboundFn[o.Fn] {
+					undecided = append(undecided, "auxiliary loop invariant does not hold (proof broken, nothing decided for this function): "+o.Name+" ("+o.Verdict+")")
+				}
+				unboundFn[o.Fn] = true
+			}
+		}
+	}
+	for _, fr := range r.res {
+		if fr.enc == nil {
+			continue
+		}
+		for _, be := range fr.enc.bindErrs {
+			if !baseBind[be] && isBindFailure(be) && breaksProof(be) {
+				unboundFn[shortName(fr.fn)] = true
+			}
+		}
+	}
+	// loops were added or removed in a function whose contract attaches clauses to loops by number
+	for fn, n := range r.loopShape() {
+		if bn, ok := base.LoopShape[fn]; ok && bn != n && n > 0 {
+			unboundFn[fn] = true
+			undecided = append(undecided, fmt.Sprintf("contract does not bind: %s had %d loops on the pinned tree and has %d now; its loop clauses are numbered", fn, bn, n))
+		}
+	}
+	// a function that now calls a function which did not exist on the pinned tree (an extracted helper): the
+	// helper has no contract, so the caller's proof has lost what the inlined statements used to establish
+	if len(base.AllFunctions) > 0 {
+		known := map[string]bool{}
+		for _, f := range base.AllFunctions {
+			known[f] = true
+		}
+		byShort := map[string]*ssa.Function{}
+		for _, f := range r.w.funcs {
+			byShort[shortName(f)] = f
+		}
+		checked := map[string]bool{}
+		for _, v := range viol {
+			if checked[v.ob.Fn] {
+				continue
+			}
+			checked[v.ob.Fn] = true
+			f := byShort[v.ob.Fn]
+			if f == nil {
+				continue
+			}
+			for _, b := range f.Blocks {
+				for _, in := range b.Instrs {
+					c, ok := in.(*ssa.Call)
+					if !ok {
+						continue
+					}
+					if callee := c.Common().StaticCallee(); callee != nil && r.w.mine[pkgOf(callee)] && !known[shortName(callee)] {
+						if !unboundFn[v.ob.Fn] {
+							undecided = append(undecided, fmt.Sprintf("contract does not bind: %s calls %s, which did not exist on the pinned tree and has no contract", v.ob.Fn, shortName(callee)))
+						}
+						unboundFn[v.ob.Fn] = true
+					}
+				}
+			}
+		}
+	}
+	if len(unboundFn) > 0 {
+		var keep []violation
+		for _, v := range viol {
+			if unboundFn[v.ob.Fn] {
+				undecided = append(undecided, "proof broken, contract of "+v.ob.Fn+" does not bind any more: "+v.ob.Name+" ("+v.ob.Verdict+")")
+				continue
+			}
+			keep = append(keep, v)
+		}
+		viol = keep
+	}
 	// 3. known findings
 	knownPrinted := map[string]bool{}
 	var realViol []violation
@@ -420,6 +647,7 @@ func (r *checkRun) decide(noEvidence bool, evidenceOut string) int {
 	// 4. report
 	os.MkdirAll(filepath.Join(r.root, "replays"), 0o755)
 	replayCache := map[string]*replayTest{}
+	nreported := 0
 	for i := range realViol {
 		v := &realViol[i]
 		enc := encOf[v.ob]
@@ -430,12 +658,23 @@ func (r *checkRun) decide(noEvidence bool, evidenceOut string) int {
 		} else if rt := r.tryReplay(v, replayCache); rt != nil {
 			v.test = rt
 			v.confirmed = rt.Failed
+			if !rt.Failed && strings.Contains(rt.Output, "ok  ") {
+				// the executable form of the refuted clauses ran on the real code, on receivers with every
+				// field populated, and held: the refutation is an artefact of an incomplete proof (typically a
+				// copy loop rewritten in a shape the invariant synthesis does not know)
+				v.spurious = true
+			}
 		}
 		v.replay = r.writeReplay(v, i)
+		if v.spurious {
+			undecided = append(undecided, "refuted by the solver but the replay on the real code holds (see "+v.replay+"): "+v.ob.Name)
+			continue
+		}
 		suffix := ""
 		if !v.confirmed {
 			suffix = " no-failing-input-found"
 		}
+		nreported++
 		fmt.Printf("VIOLATION property=%s replay=%s obligation=%q reason=%q%s\n", r.prop, v.replay, v.ob.Name, v.reason, suffix)
 	}
 	// contracts that no longer bind to the code (renamed variables, restructured loops): nothing is decided
@@ -445,7 +684,7 @@ func (r *checkRun) decide(noEvidence bool, evidenceOut string) int {
 			continue
 		}
 		for _, be := range fr.enc.bindErrs {
-			if strings.Contains(be, "unknown identifier") || strings.Contains(be, "no field") || strings.Contains(be, "no head value") {
+			if isBindFailure(be) && !baseBind[be] {
 				undecided = append(undecided, "contract does not bind: "+be)
 			}
 		}
@@ -454,6 +693,11 @@ func (r *checkRun) decide(noEvidence bool, evidenceOut string) int {
 		fmt.Printf("UNDECIDED property=%s %s\n", r.prop, u)
 	}
 	vac := r.vacuity()
+	for _, o := range obs {
+		for _, d := range o.crossDisagree {
+			fmt.Printf("SOLVER-DISAGREEMENT property=%s %s refutes an obligation the deciding solver proved: %s\n", r.prop, d, o.Name)
+		}
+	}
 	if r.tier == "thorough" && !noEvidence {
 		r.canary = r.canaries()
 		for _, c := range r.canary {
@@ -471,10 +715,10 @@ func (r *checkRun) decide(noEvidence bool, evidenceOut string) int {
 		}
 	}
 	if !noEvidence {
-		r.writeEvidence(evidenceOut, obs, nclaimedPresent, discharged, byBackend, solverMs, len(realViol), undecided, base, vac, knownPrinted)
+		r.writeEvidence(evidenceOut, obs, nclaimedPresent, discharged, byBackend, solverMs, nreported, undecided, base, vac, knownPrinted)
 	}
-	fmt.Printf("property=%s tier=%s obligations=%d discharged=%d violations=%d undecided=%d wall=%.1fs\n", r.prop, r.tier, nclaimedPresent, discharged, len(realViol), len(undecided), time.Since(r.t0).Seconds())
-	if len(realViol) > 0 {
+	fmt.Printf("property=%s tier=%s obligations=%d discharged=%d violations=%d undecided=%d wall=%.1fs\n", r.prop, r.tier, nclaimedPresent, discharged, nreported, len(undecided), time.Since(r.t0).Seconds())
+	if nreported > 0 {
 		return 1
 	}
 	return 0
@@ -532,14 +776,32 @@ func (r *checkRun) vacuity() vacReport {
 			continue
 		}
 		any := false
+		loops := map[string]bool{}
+		var loopOrder []string
 		for _, o := range fr.enc.obs {
 			if o.Family != "VAC" {
+				continue
+			}
+			if o.Kind == "loopbody" {
+				k := o.Name
+				if i := strings.LastIndex(k, "#"); i >= 0 {
+					k = k[:i]
+				}
+				if _, ok := loops[k]; !ok {
+					loopOrder = append(loopOrder, k)
+				}
+				loops[k] = loops[k] || o.Verdict == "sat"
 				continue
 			}
 			if o.Verdict == "sat" {
 				any = true
 			} else {
 				v.Unreachable = append(v.Unreachable, o.Name)
+			}
+		}
+		for _, k := range loopOrder {
+			if !loops[k] {
+				v.Unreachable = append(v.Unreachable, k+" (no back edge reachable)")
 			}
 		}
 		if any {
@@ -689,6 +951,19 @@ func (r *checkRun) writeEvidence(out string, obs []*Oblig, nob, discharged int, 
 		"exhaustive": false,
 	}
 	if r.tier == "thorough" {
+		asked, agree := 0, 0
+		var dis []string
+		for _, o := range obs {
+			asked += o.crossAsked
+			agree += o.crossAgree
+			for _, d := range o.crossDisagree {
+				dis = append(dis, d+" says sat: "+o.Name)
+			}
+		}
+		cov["cross_solver_queries"] = asked
+		cov["cross_solver_agreements"] = agree
+		cov["cross_solver_undecided_by_second_solver"] = asked - agree - len(dis)
+		cov["cross_solver_disagreements"] = dis
 		det, app := 0, 0
 		for _, c := range r.canary {
 			if c.Applied {
@@ -698,6 +973,7 @@ func (r *checkRun) writeEvidence(out string, obs []*Oblig, nob, discharged int, 
 				det++
 			}
 		}
+		cov["trusted_ast_facts_audit_bounded"] = r.astAudit()
 		cov["mutation_canaries"] = r.canary
 		cov["mutation_canaries_applied"] = app
 		cov["mutation_canaries_detected"] = det
@@ -811,4 +1087,105 @@ func relevantFuncs(w *World, spec *Specs, prop string) []*ssa.Function {
 		}
 	}
 	return out
+}
+
+
+func isBindFailure(be string) bool {
+	return strings.Contains(be, "unknown identifier") || strings.Contains(be, "no field") || strings.Contains(be, "no head value")
+}
+
+func (r *checkRun) bindErrors() []string {
+	var out []string
+	for _, fr := range r.res {
+		if fr.enc == nil {
+			continue
+		}
+		for _, be := range fr.enc.bindErrs {
+			if isBindFailure(be) {
+				out = append(out, be)
+			}
+		}
+	}
+	sort.Strings(out)
+	return out
+}
+
+
+// breaksProof: a missing assumption (an invariant that does not bind to an existing loop) can make other
+// obligations of the function fail for no semantic reason; a missing assertion, ghost or a clause of a loop
+// that no longer exists in a loop-free function cannot.
+func breaksProof(be string) bool {
+	if strings.Contains(be, "the function has 0 loops") {
+		return false
+	}
+	return strings.Contains(be, "invariant") || strings.Contains(be, "iter clause") || strings.Contains(be, " auto ")
+}
+
+func (r *checkRun) loopShape() map[string]int {
+	out := map[string]int{}
+	for _, fr := range r.res {
+		if fr.enc == nil || fr.enc.topFrame == nil {
+			continue
+		}
+		ct := fr.enc.topFrame.contract
+		if ct == nil || ct.IsIface || (len(ct.LoopInv) == 0 && len(ct.IterEns) == 0 && len(ct.LoopDec) == 0) {
+			continue
+		}
+		out[shortName(fr.fn)] = len(fr.enc.topFrame.loops)
+	}
+	return out
+}
+
+
+// anchorFunctions: the functions defined in the files properties.jsonl anchors the property in (for the
+// properties decided by tagged contracts; the global ones cover every function anyway).
+func anchorFunctions(w *World, root, prop string) map[string]bool {
+	out := map[string]bool{}
+	switch prop {
+	case "C01", "C03", "C04", "C05", "C17":
+		return out
+	}
+	b, err := os.ReadFile(filepath.Join(root, "properties.jsonl"))
+	if err != nil {
+		return out
+	}
+	files := map[string]bool{}
+	for _, l := range strings.Split(string(b), "\n") {
+		var rec struct {
+			ID      string `json:"id"`
+			Anchors struct {
+				Files []string `json:"files"`
+			} `json:"anchors"`
+		}
+		if json.Unmarshal([]byte(l), &rec) != nil || rec.ID != prop {
+			continue
+		}
+		for _, f := range rec.Anchors.Files {
+			files[f] = true
+		}
+	}
+	for _, f := range w.funcs {
+		if f.Pos() == 0 && f.Parent() == nil {
+			continue
+		}
+		pos := f.Pos()
+		if pos == 0 && f.Parent() != nil {
+			pos = f.Parent().Pos()
+		}
+		fn := shortPath(w.prog.Fset.Position(pos).Filename)
+		if files[fn] {
+			out[shortName(f)] = true
+		}
+	}
+	return out
+}
+
+
+func hasTag(o *Oblig, t string) bool {
+	for _, x := range o.tags {
+		if x == t {
+			return true
+		}
+	}
+	return false
 }
